@@ -120,6 +120,23 @@ pay!(P12A4, 12, 4);
 pay!(P16A16, 16, 16);
 
 /// Name of the Rust type for (size, align), if there is one.
+/// the publisher's backpressure handler of configuration `mode` (see PsCfg::handler)
+pub fn rust_handler(mode: u8) -> impl Fn(&iceoryx2::port::BackpressureInfo) -> iceoryx2::port::BackpressureAction + Send + 'static {
+    use iceoryx2::port::BackpressureAction as A;
+    move |info| match mode {
+        1 => A::DiscardData,
+        2 => A::DiscardDataAndFail,
+        3 => {
+            if info.retries == 0 {
+                A::Retry
+            } else {
+                A::DiscardDataAndFail
+            }
+        }
+        _ => A::FollowBackpressureyStrategy,
+    }
+}
+
 pub fn typed_name(size: usize, align: usize) -> Option<&'static str> {
     Some(match (size, align) {
         (1, 1) => P1A1::NAME,
@@ -180,7 +197,12 @@ impl<S: Service + 'static, P: Pay> PsFlavor<S> for Fixed<P> {
         ps_qos!(node.service_builder(name).publish_subscribe::<P>(), c).open_or_create()
     }
     fn mk_pub(f: &PsFactory<S, P, ()>, c: &PsCfg) -> Result<Publisher<S, P, ()>, iceoryx2::port::publisher::PublisherCreateError> {
-        f.publisher_builder().max_loaned_samples(c.max_loans).backpressure_strategy(BackpressureStrategy::DiscardData).create()
+        let b = f.publisher_builder().max_loaned_samples(c.max_loans).backpressure_strategy(BackpressureStrategy::DiscardData);
+        if c.handler != 0 {
+            b.set_backpressure_handler(rust_handler(c.handler)).create()
+        } else {
+            b.create()
+        }
     }
     fn loan(p: &Publisher<S, P, ()>, _n: usize) -> Result<Self::Loan, LoanError> {
         p.loan_uninit()
@@ -222,12 +244,17 @@ impl<S: Service + 'static, P: Pay> PsFlavor<S> for Slice<P> {
         ps_qos!(node.service_builder(name).publish_subscribe::<[P]>(), c).open_or_create()
     }
     fn mk_pub(f: &PsFactory<S, [P], ()>, c: &PsCfg) -> Result<Publisher<S, [P], ()>, iceoryx2::port::publisher::PublisherCreateError> {
-        f.publisher_builder()
+        let b = f
+            .publisher_builder()
             .max_loaned_samples(c.max_loans)
             .backpressure_strategy(BackpressureStrategy::DiscardData)
             .initial_max_slice_len(c.max_slice_len)
-            .allocation_strategy(AllocationStrategy::Static)
-            .create()
+            .allocation_strategy(AllocationStrategy::Static);
+        if c.handler != 0 {
+            b.set_backpressure_handler(rust_handler(c.handler)).create()
+        } else {
+            b.create()
+        }
     }
     fn loan(p: &Publisher<S, [P], ()>, n: usize) -> Result<Self::Loan, LoanError> {
         p.loan_slice_uninit(n)
@@ -289,6 +316,7 @@ impl<S: Service + 'static> PsFlavor<S> for Custom {
     }
     fn mk_pub(f: &PsFactory<S, Self::P, Self::H>, c: &PsCfg) -> Result<Publisher<S, Self::P, Self::H>, iceoryx2::port::publisher::PublisherCreateError> {
         let b = f.publisher_builder().max_loaned_samples(c.max_loans).backpressure_strategy(BackpressureStrategy::DiscardData);
+        let b = if c.handler != 0 { b.set_backpressure_handler(rust_handler(c.handler)) } else { b };
         if c.slice {
             b.initial_max_slice_len(c.max_slice_len).allocation_strategy(AllocationStrategy::Static).create()
         } else {
